@@ -182,6 +182,26 @@ def processLine (d : DState) (line : String) : DState × List String :=
     | some k => ({ d with crash := some k }, [])
     | none => (d, ["bad-op", "E"])
   | ["dump"] => (d, dumpLines d.sys)
+  | "recv" :: c :: t :: id :: "bind" :: a :: sd :: i :: rest =>
+    -- a `client_version` that Python cannot index (outside the model's domain, see proto.py):
+    -- the connection is bound, the exception escapes before anything is written
+    if i.startsWith "!" then
+      match parseOp ("recv" :: c :: t :: id :: "bind" :: a :: sd :: "-" :: rest), c.toNat? with
+      | some op, some cn =>
+        let s0 := d.sys
+        let s1 := ({ s0 with cfg := { s0.cfg with usage := false } } : Sys).step op
+        let bound := s1.out.all (fun e => match e with | .frame _ (.error _) _ => false | _ => true)
+        let s2 := { s1 with cfg := s0.cfg }
+        let extra := if bound then [s!"X {cn} {(i.drop 1).toString}"] else []
+        ({ sys := s2, crash := none }, s1.out.map showEvent ++ extra ++ ["E"])
+      | _, _ => (d, ["bad-op", "E"])
+    else
+      match parseOp toks with
+      | none => (d, ["bad-op", "E"])
+      | some op =>
+        let op := match d.crash with | some k => Op.crashIn k op | none => op
+        let s1 := d.sys.step op
+        ({ sys := s1, crash := none }, s1.out.map showEvent ++ ["E"])
   | toks =>
     match parseOp toks with
     | none => (d, ["bad-op", "E"])
